@@ -291,8 +291,24 @@ pub fn take_services() -> Vec<ServiceNote> {
 static CONFIG_NOTES: std::sync::Mutex<Vec<(crate::PeerId, String, String)>> =
     std::sync::Mutex::new(Vec::new());
 
+/// Set by the `node` adapter only: in every other area the objects report nothing (no allocation, no log).
+static CONFIG_NOTES_ON: std::sync::atomic::AtomicBool = std::sync::atomic::AtomicBool::new(false);
+
+/// Switch the notes on (the `node` adapter does, when it is created).
+pub fn enable_config_notes() {
+    CONFIG_NOTES_ON.store(true, Ordering::SeqCst);
+}
+
+/// Are the notes switched on?
+pub fn config_notes_enabled() -> bool {
+    CONFIG_NOTES_ON.load(Ordering::SeqCst)
+}
+
 /// Record what a constructed object holds.
 pub fn note_config(local: crate::PeerId, what: &str, text: String) {
+    if !config_notes_enabled() {
+        return;
+    }
     if let Ok(mut notes) = CONFIG_NOTES.lock() {
         if notes.len() >= 4096 {
             notes.remove(0);
